@@ -201,6 +201,79 @@ if E.Path.comprehension.__module__ != __name__:
     E.Path.comprehension = comprehension
 
 
+# ---------------------------------------------------------------------------
+# Fallbacks for integer operators the core does not interpret (symbolic shift amount; | & ^ of two unbounded symbolic
+# operands): the result is an UNCONSTRAINED integer (non-negative when both operands are) -- an over-approximation; the
+# exception of CPython is kept (`<<`/`>>` by a negative count raises ValueError).  Only reached where the core would have
+# given up with Unsupported.
+# `'H' * n` with symbolic n (struct format for "as many 16-bit values as fit"): a RepFmt value understood by
+# struct.unpack_from below.
+# ---------------------------------------------------------------------------
+class RepFmt:
+    def __init__(self, prefix, unit, count):
+        self.prefix, self.unit, self.count = prefix, unit, count
+
+    def __repr__(self):
+        return f'RepFmt({self.prefix!r} + {self.unit!r} * {self.count!r})'
+
+
+_orig_binop = models.binop
+_BITOPS = (ast.BitOr, ast.BitAnd, ast.BitXor)
+
+
+def binop(ex, op, a, b):
+    pa, pb = models.plain(a), models.plain(b)
+    if isinstance(op, ast.Add) and isinstance(pa, str) and isinstance(pb, RepFmt) and not pb.prefix:
+        return RepFmt(pa, pb.unit, pb.count)
+    if isinstance(op, ast.Mult) and isinstance(pa, str) and len(pa) == 1 and isinstance(pb, Sym) and pb.k == 'int':
+        return RepFmt('', pa, pb)
+    try:
+        return _orig_binop(ex, op, a, b)
+    except E.Unsupported:
+        if ex.spec_mode or ex.quant or not (models.is_intlike(ex, pa) and models.is_intlike(ex, pb)):
+            raise
+        if isinstance(op, (ast.LShift, ast.RShift)):
+            if not ex.branch(E.mk_bool(E.zint(pb) >= 0)):
+                ex.raise_(ValueError, 'negative shift count')
+        elif not isinstance(op, _BITOPS):
+            raise
+        ex.abstraction_used = True
+        r = ex.fresh_sym('int', 'bitop')
+        ex.add_def(z3.Implies(z3.And(E.zint(pa) >= 0, E.zint(pb) >= 0), r.t >= 0))
+        return r
+
+
+if models.binop.__module__ != __name__:
+    models.binop = binop
+
+import struct as _struct  # noqa: E402
+
+_orig_unpack_from = MC.NATIVE_MODELS[_struct.unpack_from]
+
+
+def struct_unpack_from(ex, fmt, buf, offset=0):
+    f = models.plain(fmt)
+    if not isinstance(f, RepFmt):
+        return _orig_unpack_from(ex, fmt, buf, offset)
+    if f.prefix not in ('<', '>', '!', '=') or f.unit not in 'BHIQ':
+        raise E.Unsupported(f'struct format {f!r}')
+    size = _struct.calcsize(f.prefix + f.unit)
+    n = ex.length(ex.as_bytes_value(buf))
+    off = E.zint(models.plain(offset))
+    cnt = z3.If(E.zint(f.count) > 0, E.zint(f.count), 0)  # 'H' * negative == ''
+    ok = z3.And(off >= 0, E.zint(n) - off >= size * cnt)
+    if not ex.branch(E.mk_bool(ok)):
+        ex.raise_(_struct.error, 'unpack_from requires a bigger buffer')
+    ex.abstraction_used = True  # the values themselves are not interpreted
+    r = ex.fresh_sym(('seq', 'int'), 'unpacked')
+    ex.add_def(z3.Length(r.t) == cnt)
+    return r
+
+
+if getattr(_orig_unpack_from, '__module__', '') != __name__:
+    MC.NATIVE_MODELS[_struct.unpack_from] = struct_unpack_from
+
+
 import os as _os  # noqa: E402
 
 if _os.environ.get('PYVC_DEBUG_WHY'):
